@@ -71,7 +71,7 @@ FINISH = dict(level="proof",
                    "trainer kind x bias x shrinking x precomputed/cache size x weighted x cold/warm x kernel {linear, rbf}; "
                    "non-trivial = solver ran at least 2 iterations; distinct = distinct op text")
 
-LAKE_TARGETS = ["SharkVerif.Props.C07", "drv_c07"]
+LAKE_TARGETS = ["SharkVerif.Props.C07", "SharkVerif.Props.C07b", "drv_c07"]
 PID = "C07"
 tok = c08.tok
 
@@ -134,9 +134,9 @@ def run(ctx):
                         "exact arithmetic in the theorems; the Float instance is tied bit-for-bit on integer-point data",
                         "the solver sees the kernel through its float cache: the oracle rounds its own kernel entries to float as well"]
     translate(ctx)
-    ctx.prove(["SharkVerif.Props.C07"])
+    ctx.prove(["SharkVerif.Props.C07", "SharkVerif.Props.C07b"])
     if not ctx.quick:
-        ctx.leanchecker(["SharkVerif.Props.C07"])
+        ctx.leanchecker(["SharkVerif.Props.C07", "SharkVerif.Props.C07b"])
     exe = build(ctx)
     drv = ctx.driver("drv_c07")
     if not exe or not drv:
@@ -526,7 +526,8 @@ def run_extended(ctx, exe, r, ngen):
             ops = [l.strip() for l in open(os.path.join(corpus, fn)) if l.strip().startswith("trx ")]
             if ops:
                 groups_all.append((dict(kind=ops[0].split()[1], style="corpus", kern=ops[0].split()[2], eps=c08.untok(ops[0].split()[8]), n=0,
-                                        weighted=0, zero_weight=0), [[parse_trx_line(o) for o in ops]]))
+                                        weighted=0, zero_weight=0),
+                                   [[parse_trx_line(o) for o in ops if o.split()[4] == b] for b in ("0", "1") if any(o.split()[4] == b for o in ops)]))
     kinds = ["c", "q", "e", "o", "r", "m"]
     for k in range(ngen):
         groups_all.append(gen_trx(r, ctx.quick, kind=kinds[k] if k < len(kinds) else None))   # every kind in every run
